@@ -466,7 +466,8 @@ class Roles:
     def __init__(self, arrays: Dict[str, Optional[str]], reals: Sequence[str] = (), ints: Sequence[str] = (),
                  record_arrays: Optional[Dict[str, Sequence[str]]] = None, same_length: Sequence[Sequence[str]] = (),
                  min_len: Optional[Dict[str, int]] = None, emit_lists: Sequence[str] = (),
-                 real_seqs: Sequence[str] = ()):
+                 real_seqs: Sequence[str] = (), len_offset: Optional[Dict[str, Tuple[str, int]]] = None,
+                 compare_hook: Optional[Callable[[ast.Compare, 'Translator'], Optional[tuple]]] = None):
         self.arrays = dict(arrays)            # name -> 'strict' | 'nonstrict' | None (payload / unordered)
         self.reals = set(reals)
         self.ints = set(ints)
@@ -475,6 +476,8 @@ class Roles:
         self.min_len = dict(min_len or {})
         self.emit_lists = set(emit_lists)     # local lists whose .append(...) is an emit
         self.real_seqs = set(real_seqs)       # sequences of reals only iterated over (for x in xs)
+        self.len_offset = dict(len_offset or {})   # derived sequence -> (base sequence, k): len(derived) = len(base) + k
+        self.compare_hook = compare_hook      # predicate abstraction: a comparison of the source as an IR condition
 
 
 class Translator:
@@ -605,6 +608,10 @@ class Translator:
             base = self.expr(e.value)
             if base[0] in ('obj', 'var'):
                 return ('attr', base, e.attr)
+        if isinstance(e, ast.Compare) and self.roles.compare_hook is not None:
+            hooked = self.roles.compare_hook(e, self)
+            if hooked is not None:
+                return hooked
         if isinstance(e, ast.Compare):
             parts = []
             left = self.expr(e.left)
@@ -1069,6 +1076,9 @@ class Abstract:
         return Lin.var(f'r:{hint}#{next(self.fresh)}')
 
     def len_of(self, arr: str) -> Lin:
+        if arr in self.roles.len_offset:
+            base, k = self.roles.len_offset[arr]
+            return self.len_of(base).plus(k)
         for g in self.roles.same_length:
             if arr in g:
                 arr = g[0]
@@ -1407,8 +1417,9 @@ class Abstract:
             if e[0] == 'cmp':
                 for a, b in ((e[2], e[3]), (e[3], e[2])):
                     if a[0] == 'elem' and self.roles.arrays.get(a[1]):
-                        if b[0] == 'var' and b[1] not in self.tr.int_vars:
-                            cmp_terms.append((a[1], b))
+                        if (b[0] == 'var' and b[1] not in self.tr.int_vars) or b[0] in ('int', 'num'):
+                            if (a[1], b) not in cmp_terms:
+                                cmp_terms.append((a[1], b))
         ir_walk_exprs(self.whole_ir, visit)
         bounds: List[tuple] = [('int', 0)]
         for a in sorted(arrays_idx):
